@@ -108,6 +108,22 @@ pub fn new_egraph(mode: &J) -> EGraph {
     eg
 }
 
+pub const HUGE: u64 = 100_000_000;
+
+/// structural copy of a term of the TermDag (no interpretation)
+pub fn term_json(dag: &egglog::TermDag, t: egglog::TermId) -> J {
+    match dag.get(t) {
+        egglog::Term::Lit(egglog::ast::Literal::Int(i)) => json!({"i": i}),
+        egglog::Term::Lit(egglog::ast::Literal::Bool(b)) => json!({"i": if *b { 1 } else { 0 }}),
+        egglog::Term::Lit(l) => json!({"n": format!("lit:{l}"), "a": []}),
+        egglog::Term::Var(v) => json!({"n": format!("var:{v}"), "a": []}),
+        egglog::Term::App(f, ch) => {
+            let a: Vec<J> = ch.iter().map(|c| term_json(dag, *c)).collect();
+            json!({"n": f, "a": a})
+        }
+    }
+}
+
 pub fn outputs_json(outs: &[CommandOutput]) -> (Vec<J>, Option<bool>) {
     let mut v = vec![];
     let mut upd = None;
@@ -118,11 +134,16 @@ pub fn outputs_json(outs: &[CommandOutput]) -> (Vec<J>, Option<bool>) {
                 v.push(json!({"k": "run", "updated": r.updated, "can_stop": r.can_stop}));
             }
             CommandOutput::ExtractBest(dag, cost, t) => {
-                v.push(json!({"k": "extract", "cost": cost.to_string(), "term": dag.to_string(*t)}));
+                // TLC integers are 32-bit: a cost a * i64::MAX + b is logged as a * HUGE + b (Extract.tla: Huge, Cap)
+                let imax = i64::MAX as u64;
+                let costn = (*cost / imax) * HUGE + (*cost % imax).min(HUGE - 1);
+                v.push(json!({"k": "extract", "cost": cost.to_string(), "costn": costn, "text": dag.to_string(*t),
+                              "term": term_json(dag, *t)}));
             }
             CommandOutput::ExtractVariants(dag, ts) => {
-                let xs: Vec<String> = ts.iter().map(|t| dag.to_string(*t)).collect();
-                v.push(json!({"k": "variants", "terms": xs}));
+                let xs: Vec<J> = ts.iter().map(|t| term_json(dag, *t)).collect();
+                let tx: Vec<String> = ts.iter().map(|t| dag.to_string(*t)).collect();
+                v.push(json!({"k": "variants", "terms": xs, "texts": tx}));
             }
             CommandOutput::PrintFunctionSize(n) => v.push(json!({"k": "size", "n": n})),
             CommandOutput::PrintAllFunctionsSize(xs) => v.push(json!({"k": "sizes", "n": xs})),
